@@ -100,6 +100,12 @@ COMPONENT_SPECS = [
     {"kind": "spy", "outcome": "deny", "response": None},
     {"kind": "spy", "outcome": "raise", "exc": "CancelledError"},
     {"kind": "spy", "outcome": "raise", "exc": "StrRaises", "delay": 5},
+    # access control that refuses by OMISSION: an allow list the peer is not on (default policy untouched) - entries
+    # of the peer's own address family, of the other family only, and of both
+    {"kind": "acl", "deny": True, "allow_list": ["10.0.0.0/8"]},
+    {"kind": "acl", "deny": True, "allow_list": ["2001:db8::/32", "::1"]},
+    {"kind": "acl", "deny": True, "allow_list": ["2001:db8::/32", "10.0.0.0/8"]},
+    {"kind": "acl", "deny": False, "allow_list": ["2001:db8::/32", "198.51.100.0/24"]},
 ]
 
 
@@ -118,7 +124,10 @@ def build_component(spec, log, loop, client_fp, idx):
     if k == "spy":
         inner = SpyMiddleware({kk: vv for kk, vv in spec.items() if kk != "kind"}, [], loop)
     elif k == "acl":
-        inner = AccessControl(AccessControlConfig(deny_list=[PEER[0]] if spec["deny"] else ["203.0.113.0/24"]))
+        if spec.get("allow_list"):
+            inner = AccessControl(AccessControlConfig(allow_list=list(spec["allow_list"])))
+        else:
+            inner = AccessControl(AccessControlConfig(deny_list=[PEER[0]] if spec["deny"] else ["203.0.113.0/24"]))
     elif k == "cert":
         fps = None
         if spec["allow_fp"] == "match":
